@@ -23,6 +23,31 @@ OPS = {"P2M", "M2M", "M2L", "L2L", "L2P", "P2P", "P2PInner", "P2PTsm", "M2LInGro
        "P2PBetweenGroupsTsm", "M2LTsm", "P2PInGroupTsm"}
 
 
+def negate(cond):
+    """negation of a comparison in the origin notation `(A op B)`, in the orientation FnModel uses (`<` / `<=` with the operands swapped
+    rather than `>` / `>=`); None when the condition is not a single comparison"""
+    if not (cond.startswith("(") and cond.endswith(")")):
+        return None
+    inner = cond[1:-1]
+    depth = 0
+    i = 0
+    while i < len(inner):
+        ch = inner[i]
+        if ch in "([{":
+            depth += 1
+        elif ch in ")]}":
+            depth -= 1
+        elif depth == 0:
+            for op in ("<=", ">=", "==", "!=", "<", ">"):
+                if inner.startswith(op, i) and not inner.startswith("<<", i) and not inner.startswith(">>", i) and not (op in ("<", ">") and i > 0 and inner[i - 1] in "<>-"):
+                    a, b = inner[:i], inner[i + len(op):]
+                    if "&&" in a or "||" in a or "&&" in b or "||" in b:
+                        return None
+                    return {"<=": "(%s<%s)" % (b, a), "<": "(%s<=%s)" % (b, a), ">=": "(%s<%s)" % (a, b), ">": "(%s<=%s)" % (a, b), "==": "(%s!=%s)" % (a, b), "!=": "(%s==%s)" % (a, b)}[op]
+        i += 1
+    return None
+
+
 class Skeletons:
     def __init__(self, facts, fn, ops=True, counters=True):
         self.facts = facts
@@ -49,8 +74,20 @@ class Skeletons:
         k = s.get("k")
         if k == "CompoundStmt":
             out = []
-            for c in kids(s):
-                out += self.items(c, declared)
+            cs = kids(s)
+            for i_, c in enumerate(cs):
+                it_ = self.items(c, declared)
+                # `if(C) return; rest` is `if(!C){ rest }`: an early-return guard and a nesting guard are the same walk
+                if len(it_) == 1 and it_[0][0] == "if" and not it_[0][3] and len(it_[0][2]) == 1 and it_[0][2][0][0] == "act" and it_[0][2][0][1] == "return" and i_ + 1 < len(cs):
+                    neg = negate(it_[0][1])
+                    if neg is not None:
+                        rest = []
+                        for c2 in cs[i_ + 1:]:
+                            rest += self.items(c2, declared)
+                        if rest:
+                            out.append(("if", neg, rest, [], it_[0][4]))
+                        return out
+                out += it_
             return out
         if k == "DeclStmt":
             if declared is not None:
